@@ -113,3 +113,74 @@ Definition w_py_delitem (v : val) : val :=
                        | None => bad end
   | _ => bad
   end.
+
+(* ---- slices (step 1) and fixed-length relations ---- *)
+(* list.__setitem__/__delitem__ with slice(a, b): a bound that is None is the respective end; bounds are clamped the
+   way insert clamps; an empty or inverted range inserts at the lower bound *)
+Definition py_bound (n : nat) (b : option Z) (dflt : nat) : nat :=
+  match b with None => dflt | Some i => py_norm n i end.
+Definition py_lo (n : nat) (a : option Z) : nat := py_bound n a 0.
+Definition py_hi (n : nat) (a b : option Z) : nat := Nat.max (py_lo n a) (py_bound n b n).
+Definition py_slice {A} (a b : option Z) (l : list A) : list A :=
+  firstn (py_hi (length l) a b - py_lo (length l) a) (skipn (py_lo (length l) a) l).
+Definition py_slice_set {A} (a b : option Z) (xs l : list A) : list A :=
+  firstn (py_lo (length l) a) l ++ xs ++ skipn (py_hi (length l) a b) l.
+Definition py_slice_del {A} (a b : option Z) (l : list A) : list A := py_slice_set a b [] l.
+
+(* ElementListCouplingMixin.__delitem__ deletes a slice by handing each member of the slice, in order, to the
+   accessor's delete(); for an attribute relation that is attr_delete *)
+Definition attr_slice_del (a b : option Z) (l : list Z) : list Z :=
+  fold_left (fun acc x => attr_delete x acc) (py_slice a b l) l.
+
+(* operations on a fixed-length relation whose list is full (ElementListCouplingMixin.__setitem__/__delitem__/insert/
+   create, AttrProxyAccessor.__set__): None = TypeError *)
+Inductive fop :=
+| FSetItem (i : Z) (x : Z)
+| FSliceSet (a b : option Z) (xs : list Z)
+| FSliceDel (a b : option Z)
+| FDelItem (i : Z)
+| FInsert (i : Z) (x : Z)
+| FAssign (xs : list Z).
+Definition py_setitem (i : Z) (x : Z) (l : list Z) : option (list Z) :=
+  match py_index (length l) i with Some k => Some (firstn k l ++ x :: skipn (S k) l) | None => None end.
+Definition fixed_step (fixed : nat) (l : list Z) (o : fop) : option (list Z) :=
+  match o with
+  | FSetItem i x => py_setitem i x l
+  | FSliceSet a b xs => let r := py_slice_set a b xs l in if Nat.eqb (length r) fixed then Some r else None
+  | FSliceDel a b => if Nat.leb (length l) fixed then None else Some (py_slice_del a b l)
+  | FDelItem i => if Nat.leb (length l) fixed then None else py_delitem i l
+  | FInsert i x => if Nat.leb fixed (length l) then None else Some (py_insert i x l)
+  | FAssign xs => if Nat.eqb (length xs) fixed then Some xs else None
+  end.
+(* a rejected operation changes nothing *)
+Definition fixed_apply (fixed : nat) (l : list Z) (o : fop) : list Z :=
+  match fixed_step fixed l o with Some r => r | None => l end.
+
+Definition dec_oz (v : val) : option (option Z) := match v with VNone => Some None | VZ z => Some (Some z) | _ => None end.
+Definition w_py_slice_set (v : val) : val :=
+  match v with
+  | VL [a; b; VL xs; VL l] =>
+      match dec_oz a, dec_oz b, all_some (map as_Z xs), all_some (map as_Z l) with
+      | Some a, Some b, Some xs, Some l => VL [VL (map VZ (py_slice_set a b xs l)); VL (map VZ (py_slice a b l)); VL (map VZ (py_slice_del a b l))]
+      | _, _, _, _ => bad end
+  | _ => bad
+  end.
+Definition dec_fop (v : val) : option fop :=
+  match v with
+  | VL [VZ 0; VZ i; VZ x] => Some (FSetItem i x)
+  | VL [VZ 1; a; b; VL xs] => match dec_oz a, dec_oz b, all_some (map as_Z xs) with Some a, Some b, Some xs => Some (FSliceSet a b xs) | _, _, _ => None end
+  | VL [VZ 2; a; b] => match dec_oz a, dec_oz b with Some a, Some b => Some (FSliceDel a b) | _, _ => None end
+  | VL [VZ 3; VZ i] => Some (FDelItem i)
+  | VL [VZ 4; VZ i; VZ x] => Some (FInsert i x)
+  | VL [VZ 5; VL xs] => option_map FAssign (all_some (map as_Z xs))
+  | _ => None
+  end.
+(* [fixed; l; op] -> [accepted?; list afterwards] *)
+Definition w_fixed_step (v : val) : val :=
+  match v with
+  | VL [VZ f; VL l; o] =>
+      match all_some (map as_Z l), dec_fop o with
+      | Some l, Some o => VL [VB (match fixed_step (Z.to_nat f) l o with Some _ => true | None => false end); VL (map VZ (fixed_apply (Z.to_nat f) l o))]
+      | _, _ => bad end
+  | _ => bad
+  end.
